@@ -300,7 +300,7 @@ func (c *PhasedConn) runClient() {
 }
 
 // runTLSConvImpl: conversations with TLS available (STARTTLS) or implicit TLS.
-func runTLSConvImpl(s *smtp.Server, be *RecBackend, c ConvCase) [][]Raw {
+func runTLSConvImpl(s *smtp.Server, be *RecBackend, c ConvCase) ([][]Raw, bool) {
 	if c.Cfg.TLSConfig {
 		s.TLSConfig = serverTLSConfig()
 	}
@@ -327,7 +327,7 @@ func runTLSConvImpl(s *smtp.Server, be *RecBackend, c ConvCase) [][]Raw {
 	if lst == nil {
 		lst = newOneListener(conn)
 	}
-	serveOn(s, lst, conn)
+	served := serveOn(s, lst, conn)
 	// wait for the TLS client to finish
 	pc.mu.Lock()
 	deadline := time.Now().Add(5 * time.Second)
@@ -341,14 +341,14 @@ func runTLSConvImpl(s *smtp.Server, be *RecBackend, c ConvCase) [][]Raw {
 	mode := pc.mode
 	pc.mu.Unlock()
 	if c.Cfg.ImplicitTLS {
-		return [][]Raw{append(tlsLog, Raw{Kind: RawEOF})}
+		return [][]Raw{append(tlsLog, Raw{Kind: RawEOF})}, served
 	}
 	if mode == 1 {
-		return [][]Raw{plain, append(tlsLog, Raw{Kind: RawEOF})}
+		return [][]Raw{plain, append(tlsLog, Raw{Kind: RawEOF})}, served
 	}
 	if len(c.Phases) > 1 {
 		// the TLS phase was never reached: report it as scripted
-		return [][]Raw{plain, c.Phases[1]}
+		return [][]Raw{plain, c.Phases[1]}, served
 	}
-	return [][]Raw{plain}
+	return [][]Raw{plain}, served
 }
